@@ -74,9 +74,19 @@ def gen_program(rng, n):
 
 
 def clear_all():
+    """empty EVERY functools cache of the library, whatever it is called: the public ones through the API, the private ones
+    by scanning the modules for objects with a cache_clear() (name-independent, and new caches are covered automatically)"""
     yarl.cache_clear()
-    for fn in (_url.encode_url, _url.pre_encoded_url, _url.build_pre_encoded_url, _url.from_parts, _parse.split_netloc, _parse.make_netloc):
-        fn.cache_clear()
+    import sys as _sys
+    for modname, mod in list(_sys.modules.items()):
+        if modname == "yarl" or modname.startswith("yarl."):
+            for obj in list(vars(mod).values()):
+                cc = getattr(obj, "cache_clear", None)
+                if callable(cc) and hasattr(obj, "cache_info"):
+                    try:
+                        cc()
+                    except Exception:
+                        pass
 
 
 def run_program(prog, mode, check_frames):
